@@ -1,5 +1,5 @@
-import SciVerif.Drive.Util
+import SciVerif.Drive.C01
 open Lean SciVerif.Drive
 
-/-- C02 model driver: not built yet. -/
-def main : IO Unit := serve (fun _ => throw "C02: no model yet")
+/-- C02 shares the generic solver model and its protocol handler with C01 (kind "history"). -/
+def main : IO Unit := serve SciVerif.C01.Drive.handle
